@@ -38,7 +38,7 @@ def mandatory_bins(tier):
     b = ["L%d" % L for L in range(254)]
     b += ["crc_lo_%02x" % v for v in range(256)] + ["crc_hi_%02x" % v for v in range(256)]
     b += ["crc_lo_00_solved", "crc_hi_00_solved", "crc_both_00_solved", "trailing_zero_payload", "key_ends_00",
-          "wrong_key", "wrong_marker", "wrong_crc", "custkey_pos_first", "custkey_pos_last", "custkey_mismatch", "custkey_pattern_before_slot", "shared_encryptor_object_sequence", "customer_key_attributes_reassigned_between_calls", "security_code_length_other_than_8", "payload_given_as_bytearray", "payload_given_as_memoryview", "frame_followed_by_extra_blocks",
+          "wrong_key", "wrong_marker", "wrong_crc", "custkey_pos_first", "custkey_pos_last", "custkey_mismatch", "custkey_pattern_before_slot", "shared_encryptor_object_sequence", "customer_key_attributes_reassigned_between_calls", "security_code_length_other_than_8", "payload_given_as_bytearray", "payload_given_as_memoryview", "frame_followed_by_extra_blocks", "length_byte_rewritten", "one_encryptor_object_used_by_concurrent_threads",
           "security_code", "security_code_all_zero", "model_frame_accepted", "same_object_reuse"]
     return b
 
@@ -398,6 +398,65 @@ def run_shard(spec, ctx):
                     tail_ok = len(got) + 2 <= len(model.frame(payload) + extra) and crcref.crc16(got) == int.from_bytes((model.frame(payload) + extra)[-2:], "big")
                     if not tail_ok:
                         ctx.violation("frame_followed_by_extra_blocks_accepted", {"L": L_, "extra_len": len(extra), "returned": got}, rp)
+    # the length byte of a valid frame rewritten to every other value (right key, marker intact): accepted only if the bytes the
+    # new length byte points to really are a payload followed by its CRC
+    if spec["res"] % 4 == 0:
+        for kind_ in ("cust", "code"):
+            for L_ in (0, 14, 17, 40):
+                payload = rng.randbytes(L_)
+                k_ = rng.randbytes(16)
+                c_ = rng.randbytes(8)
+                aes_ = model.security_code_key(c_) if kind_ == "code" else k_
+                dec_ = B.ConfigSecurityCodeEncryptor(c_) if kind_ == "code" else B.SoftwareCustKeyEncryptor(k_)
+                good = model.frame(payload)
+                for lb in range(256):
+                    if lb == good[1]:
+                        continue
+                    fr = good[:1] + bytes((lb,)) + good[2:]
+                    ctx.ev()
+                    ctx.bin("length_byte_rewritten")
+                    try:
+                        got = dec_.decrypt(ossl.aes_cbc(aes_, ossl.ZERO_IV, fr, True))
+                    except Exception as e:
+                        ctx.exc(e)
+                        continue
+                    justified = 2 <= lb <= len(fr) and crcref.crc16(fr[len(fr) - lb : -2]) == int.from_bytes(fr[-2:], "big") and bytes(got) == fr[len(fr) - lb : -2]
+                    if not justified:
+                        ctx.violation("frame_with_wrong_length_byte_accepted", {"frame_len": len(fr), "length_byte": lb, "correct": good[1], "returned_len": len(got)},
+                                      {"kind": kind_, "key": k_.hex(), "payload": payload.hex(), "ck": None, "pos": None, "code": c_.hex(), "length_byte": lb})
+                        break
+    # ONE encryptor object used by several threads at once (wrapping and unwrapping), interleaved at every source line of the
+    # container code and the cipher adapter
+    if spec["res"] % 8 == 5:
+        from ..sched import yieldrun
+
+        codes = yieldrun.code_objects_of(B.AesEncryptorMixin, B.SoftwareCustKeyEncryptor, ns.plugin.AES128Proxy, ns.aes.AESModeOfOperationCBC)
+        for rnd in range(4):
+            k_ = rng.randbytes(16)
+            c_ = rng.randbytes(8)
+            kind_ = ("cust", "code")[rnd % 2]
+            shared = B.ConfigSecurityCodeEncryptor(c_) if kind_ == "code" else B.SoftwareCustKeyEncryptor(k_)
+            aes_ = model.security_code_key(c_) if kind_ == "code" else k_
+            pls = [rng.randbytes(rng.choice((12, 26, 40, 100))) for _ in range(3)]
+
+            def body(i):
+                def run():
+                    ct = shared.encrypt(pls[i])
+                    return ct, shared.decrypt(ct)
+                return run
+
+            res, y = yieldrun.run_concurrently([body(i) for i in range(3)], codes, sleep=0.0001, max_yields=12000)
+            ctx.ev(3)
+            ctx.bin("one_encryptor_object_used_by_concurrent_threads")
+            ctx.mon("line_yields_injected", y)
+            for i, r in enumerate(res):
+                rp = {"kind": kind_, "key": k_.hex(), "payload": pls[i].hex(), "ck": None, "pos": None, "code": c_.hex(), "concurrent": True}
+                if r is None:
+                    ctx.note("thread_still_running_after_timeout(inconclusive)")
+                elif r[0] == "exc":
+                    ctx.violation("unwrap_of_own_frame_raises", {"exc": r[1], "who": "one object, concurrent threads"}, rp)
+                elif ossl.aes_cbc(aes_, ossl.ZERO_IV, r[1][0], False) != model.frame(pls[i]) or r[1][1] != pls[i]:
+                    ctx.violation("frame_differs_from_model:one_object_used_by_concurrent_threads", {"L": len(pls[i])}, rp)
     # security codes of other lengths than 8 (the key is SHA-256 of the WHOLE code), and two codes sharing their first 8 bytes
     if spec["res"] % 4 == 1:
         for ln in (0, 1, 7, 9, 12, 16, 32, 40):
